@@ -2,11 +2,13 @@ package catalog
 
 import (
 	"encoding/json"
+	"fmt"
 	"sync"
 
 	"github.com/jsightapi/jsight-schema-core/bytes"
 	"github.com/jsightapi/jsight-schema-core/notations/regex"
 
+	"github.com/jsightapi/jsight-api-core/jerr"
 	"github.com/jsightapi/jsight-api-core/notation"
 )
 
@@ -52,6 +54,31 @@ func (e *ExchangeRegexSchema) MarshalJSON() ([]byte, error) {
 	data.Example = string(example)
 
 	return json.Marshal(data)
+}
+
+// Check reports an invalid regular expression, and a valid one for which no
+// example can be generated (see CheckRegexExample).
+func (e *ExchangeRegexSchema) Check() error {
+	if err := e.RSchema.Check(); err != nil {
+		return err
+	}
+	return CheckRegexExample(e.RSchema)
+}
+
+// CheckRegexExample reports a regular expression for which the example
+// generator fails. It panics on some valid expressions (a negated class which
+// leaves no printable ASCII character, like [^\x00-\x7F]): such an expression
+// has to be rejected while the catalog is built, otherwise the build of every
+// schema that refers to it, or the serialisation, panics. A scratch schema of
+// the same file is used, so the example sequence of s is not advanced.
+func CheckRegexExample(s *regex.RSchema) (err error) {
+	defer func() {
+		if r := recover(); r != nil {
+			err = fmt.Errorf("%s: %v", jerr.RegexExampleCannotBeGenerated, r)
+		}
+	}()
+	_, err = regex.FromFile(s.File).Example()
+	return err
 }
 
 func (e *ExchangeRegexSchema) Notation() notation.SchemaNotation {
